@@ -258,6 +258,18 @@ Proof.
     exists c. split; [exact HP|]. cbn [INR] in Hc. fold (catmull_subpaths mode pts) in Hc. lra.
 Qed.
 
+(* readable form: the surplus is finite and takes at most 76% of the sum of
+   the segment lengths calculate_length is going to add *)
+Theorem catmull_surplus_bound lm fuel mode pts path opt :
+  catmull_hyp mode pts ->
+  calculate_path_L1 lm fuel mode pts = Done (path, opt) ->
+  fin opt /\ - B2R opt <= 0.76 * Lam path.
+Proof.
+  intros Hh H. destruct (calculate_path_sinv lm fuel mode pts path opt Hh H) as (c & (Fo & _ & No) & Hc).
+  split; [exact Fo|]. apply Rle_trans with (1 := No). apply Rmult_le_compat_r; [apply Lam_nonneg|].
+  pose proof (pos_INR c). unfold cmax, u64 in *. lra.
+Qed.
+
 Lemma seg_lens_length path : length (seg_lens path) = Nat.pred (length path).
 Proof. induction path as [|a [|b t] IH]; try reflexivity. cbn [seg_lens length] in *. rewrite IH. reflexivity. Qed.
 
